@@ -8,4 +8,5 @@ INVARIANT SortOK
 INVARIANT UnwrapOK
 INVARIANT HullIsMinArc
 INVARIANT BranchFree
+INVARIANT UnionNoFalseNegative
 CHECK_DEADLOCK FALSE
